@@ -9,6 +9,7 @@ import (
 	"sort"
 	"strings"
 	"testing"
+	"time"
 
 	"pgregory.net/rapid"
 
@@ -17,7 +18,26 @@ import (
 
 // guard runs check and converts a panic of the code under test into a
 // Failure.
-func guard[C any](check func(C, *ev.Rec) *ev.Failure, c C, rec *ev.Rec) (f *ev.Failure) {
+func guard[C any](check func(C, *ev.Rec) *ev.Failure, c C, rec *ev.Rec) *ev.Failure {
+	// a call into the code under test that never returns must become a
+	// reported failure, not a timeout of the test process: the case runs in
+	// its own goroutine under a generous watchdog (the slowest legitimate
+	// case of any check takes seconds)
+	done := make(chan *ev.Failure, 1)
+	go func() { done <- guardPanic(check, c, rec) }()
+	limit := 150 * time.Second
+	if ev.Thorough() {
+		limit = 600 * time.Second
+	}
+	select {
+	case f := <-done:
+		return f
+	case <-time.After(limit):
+		return ev.Fail(fmt.Sprintf("the case did not finish within %v: a call into the library under test does not return", limit), "result", "hang")
+	}
+}
+
+func guardPanic[C any](check func(C, *ev.Rec) *ev.Failure, c C, rec *ev.Rec) (f *ev.Failure) {
 	defer func() {
 		if r := recover(); r != nil {
 			msg := fmt.Sprint(r)
